@@ -38,7 +38,8 @@ RULE = ("pairs of nested values (depth <= 3, width <= 4; atoms None/bool/int/hal
         "values with 1-4 key add/delete/rekey/replace edits, 25% atom "
         "lists related by insert/delete/replace/move/dup planted under 0-2 levels, 6% independent values, 4% lists of rows shifted by an insertion in front with one row edited (paired at different indexes under ignore_order), 6% 2-4 sets at different paths "
         "(dict values / list items / nested) each gaining and losing members, 6% ONE set / frozenset object shared by 2-3 places of t1 (and sometimes of t2) "
-        "with member changes at each place, 8% one planted set pair; plus 5 fixed multi-container pairs and 3 fixed shared-set pairs; "
+        "with member changes at each place, 8% one planted set pair; plus 5 fixed multi-container pairs and 3 fixed shared-set pairs; in 12% of all pairs one list / dict object of t1 is made to occur at a second place (values.share, else the whole of t1 twice under a fresh root; in 40% of those t2 as well); "
+        "40% of the pairs also under one of 11 option COMBINATIONS (two or three options at once; direct oracle only, without the identity clauses of the chain walk); "
         "x {ordered, ignore_order, ignore_order+report_repetition} x verbose_level {0,1,2} x view {text,tree} "
         "(ordered mode also x threshold_to_diff_deeper {0.33, 0}). Non-trivial = non-empty tree; distinct by (t1, t2, mode, verbose).")
 TRUSTED = ["the JSON text encoder (json / orjson) and json.loads: the model stops at the JSON-able value that json.dumps walks; the check parses to_json() back",
